@@ -29,10 +29,15 @@ def install(reg: Registry):
         cc, e = A('c!dc'), A('e!dc')
         k = z3.Const('k!dc', Val)
         j = z3.Int('j!dc')
-        img = lambda v: z3.If(is_VRef(v), VRef(mu(v_a(v))), v)
+        # only containers are copied structurally; a reference to any other object is copied by that object's own
+        # __deepcopy__ / __reduce_ex__: its image is left unspecified here (so the contract stays satisfiable for data
+        # that holds objects — a contradictory postcondition would make every later obligation vacuous)
+        other = z3.Function('objimg!dc%d' % _dc_counter[0], Val, Val)
+        is_c = lambda a: z3.Or(o.cls(a) == CLS_LIST, o.cls(a) == CLS_DICT)
+        img = lambda v: z3.If(z3.And(is_VRef(v), is_c(v_a(v))), VRef(mu(v_a(v))), z3.If(is_VRef(v), other(v), v))
         return [
             ('result', r == img(x)),
-            ('root-copied', z3.Implies(is_VRef(x), cp(v_a(x)))),
+            ('root-copied', z3.Implies(z3.And(is_VRef(x), is_c(v_a(x))), cp(v_a(x)))),
             ('copies-fresh', FA([cc], z3.Implies(cp(cc), z3.And(cc >= 0, cc < o.alloc, mu(cc) >= o.alloc, mu(cc) < h.alloc,
                                                                 h.cls(mu(cc)) == o.cls(cc), h.own_obj(mu(cc)) == -1)), [mu(cc)])),
             ('copied-are-containers', FA([cc], z3.Implies(cp(cc), z3.Or(o.cls(cc) == CLS_LIST, o.cls(cc) == CLS_DICT)), [cp(cc)])),
@@ -40,17 +45,17 @@ def install(reg: Registry):
             ('dict-keys', FA([cc, k], z3.Implies(z3.And(cp(cc), o.cls(cc) == CLS_DICT), h.has(mu(cc), k) == o.has(cc, k)), [h.has(mu(cc), k)])),
             ('dict-values', FA([cc, k], z3.Implies(z3.And(cp(cc), o.cls(cc) == CLS_DICT, o.has(cc, k)),
                                                    z3.And(h.val(mu(cc), k) == img(o.val(cc, k)),
-                                                          z3.Implies(is_VRef(o.val(cc, k)), cp(v_a(o.val(cc, k))))), ), [h.val(mu(cc), k)])),
-            ('dict-closure', FA([cc, k], z3.Implies(z3.And(cp(cc), o.cls(cc) == CLS_DICT, o.has(cc, k), is_VRef(o.val(cc, k))),
+                                                          z3.Implies(z3.And(is_VRef(o.val(cc, k)), is_c(v_a(o.val(cc, k)))), cp(v_a(o.val(cc, k))))), ), [h.val(mu(cc), k)])),
+            ('dict-closure', FA([cc, k], z3.Implies(z3.And(cp(cc), o.cls(cc) == CLS_DICT, o.has(cc, k), is_VRef(o.val(cc, k)), is_c(v_a(o.val(cc, k)))),
                                                     cp(v_a(o.val(cc, k)))), [(cp(cc), o.val(cc, k))])),
             ('dict-size', FA([cc], z3.Implies(z3.And(cp(cc), o.cls(cc) == CLS_DICT), h.size(mu(cc)) == o.size(cc)), [h.size(mu(cc))])),
             ('list-len', FA([cc], z3.Implies(z3.And(cp(cc), o.cls(cc) == CLS_LIST), h.len(mu(cc)) == o.len(cc)), [h.len(mu(cc))])),
             ('list-at', FA([cc, j], z3.Implies(z3.And(cp(cc), o.cls(cc) == CLS_LIST, 0 <= j, j < o.len(cc)),
                                                z3.And(h.at(mu(cc), j) == img(o.at(cc, j)),
-                                                      z3.Implies(is_VRef(o.at(cc, j)), cp(v_a(o.at(cc, j))))), ), [h.at(mu(cc), j)])),
+                                                      z3.Implies(z3.And(is_VRef(o.at(cc, j)), is_c(v_a(o.at(cc, j)))), cp(v_a(o.at(cc, j))))), ), [h.at(mu(cc), j)])),
             ('list-bag-scalars', FA([cc, k], z3.Implies(z3.And(cp(cc), o.cls(cc) == CLS_LIST, z3.Not(is_VRef(k))),
                                                         h.bag(mu(cc), k) == o.bag(cc, k)), [h.bag(mu(cc), k)])),
-            ('list-bag-refs', FA([cc, e], z3.Implies(z3.And(cp(cc), o.cls(cc) == CLS_LIST, o.bag(cc, VRef(e)) > 0),
+            ('list-bag-refs', FA([cc, e], z3.Implies(z3.And(cp(cc), o.cls(cc) == CLS_LIST, o.bag(cc, VRef(e)) > 0, is_c(e)),
                                                      z3.And(cp(e), h.bag(mu(cc), VRef(mu(e))) == o.bag(cc, VRef(e)))), [o.bag(cc, VRef(e))])),
             ('fresh-closed', fresh_closed(h, o.alloc)),
             # ghost: a copy has the origin of what it copies (chains of copies collapse to the first original)
@@ -84,7 +89,10 @@ def install(reg: Registry):
 
     dc = Contract('copy:deepcopy', {'x': T.val, 'memo': T.val}, returns=T.val, requires=dc_requires, ensures=dc_ensures,
                   modifies=CONTAINER_ARRAYS, allocates=True, trusted=True,
-                  note='DEEPCOPY: fresh isomorphic structure, argument not written; nested containers of the copy are fresh')
+                  note='DEEPCOPY: fresh isomorphic structure, argument not written; nested containers of the copy are fresh. '
+                       'KEEP-ALIVE-OPAQUE: when a memo is passed, CPython also appends the copied object to the list memo[id(memo)]; that '
+                       'list is not modelled (no code under contract reads it): the memo entry keyed by the memo itself may change, the '
+                       'list behind it is outside the heap model and outside every frame clause')
     dc.defaults = {'memo': SV_NONE}
     reg.add(dc)
     reg.by_func['deepcopy'] = dc
@@ -313,7 +321,8 @@ def install(reg: Registry):
                [h.cnt(v_a(h.val(a, K_('attackSteps'))), d)]),
             FA([a, d], z3.Implies(member, h.orig(d) == d), [h.cnt(v_a(h.val(a, K_('attackSteps'))), d)]),
             FA([a, d, j], z3.Implies(z3.And(member, d_has_se(h, d), 0 <= j, j < h.len(d_sel(h, d))),
-                                     z3.And(is_VRef(h.at(d_sel(h, d), j)), h.orig(v_a(h.at(d_sel(h, d), j))) == v_a(h.at(d_sel(h, d), j)))),
+                                     z3.And(is_VRef(h.at(d_sel(h, d), j)), h.cls(v_a(h.at(d_sel(h, d), j))) == CLS_DICT,
+                                            h.orig(v_a(h.at(d_sel(h, d), j))) == v_a(h.at(d_sel(h, d), j)))),
                [(h.cnt(v_a(h.val(a, K_('attackSteps'))), d), h.at(d_sel(h, d), j))]))
 
     def dc_hint(c):
